@@ -78,6 +78,31 @@ def RefusalAsDescribed(descr, msg, exc):
     return True
 
 
+def DescribedAccepts(descr, msg):
+    """the described datainfo, rebuilt as a client does, accepts the payload"""
+    from frappy.datatypes import get_datatype
+    spec = Full(msg[0], msg[1])
+    info = Accessibles(descr, spec.split(':')[0])[spec.split(':')[1]]['datainfo']
+    dt = get_datatype(info)
+    try:
+        dt.validate(dt.import_value(msg[2]))
+        return True
+    except Exception:
+        return False
+
+
+def PayloadVerdictAsDescribed(descr, msg, exc):
+    """each described datainfo accepts and rejects the same payloads as the node: a change of a described writable parameter is
+    accepted only with a payload the description accepts, and refused as bad value only with one it rejects"""
+    if msg[0] != 'change' or not TargetDescribed(descr, msg):
+        return True
+    if exc is None:
+        return DescribedAccepts(descr, msg)
+    if exc.__name__ in ('WrongTypeError', 'RangeError', 'BadValueError'):
+        return not DescribedAccepts(descr, msg)
+    return True
+
+
 def ConstantAsDescribed(descr, msg, result):
     if msg[0] != 'read':
         return True
@@ -109,8 +134,10 @@ CONTRACTS = [
          self_type='Dispatcher', requires=[],
          ensures={'only_described': 'Honoured(description, msg, result)',
                   'constant': 'ConstantAsDescribed(description, msg, result)',
+                  'payload_verdict': 'PayloadVerdictAsDescribed(description, msg, None)',
                   'not_subscribed_undescribed': 'all(Described(description, e) and (":" not in e or IsParameter(description, e)) for e in self._subscriptions)'},
-         raises={'described_is_served': 'RefusalAsDescribed(description, msg, exc)',
+         raises={'payload_verdict': 'PayloadVerdictAsDescribed(description, msg, exc)',
+                 'described_is_served': 'RefusalAsDescribed(description, msg, exc)',
                  'not_subscribed_undescribed': 'all(Described(description, e) and (":" not in e or IsParameter(description, e)) for e in self._subscriptions)'}),
     dict(key='Dispatcher.handle_describe', vc=False, file='frappy/protocol/dispatcher.py', func='Dispatcher.handle_describe', serves=['C06'],
          self_type='Dispatcher', requires=[],
